@@ -188,6 +188,9 @@ func runC19(d *RunDesc, res *RunResult) {
 			// this one; every second export operation defers its reads
 			carried := len(pending)
 			chk := &expCheck{res: res, task: 0, op: i, pending: &pending, deferRd: i%2 == 1}
+			if op.K != "dec" && op.K != "rep" {
+				ctx.tick(op)
+			}
 			r := guard(func() string {
 				switch op.K {
 				case "dec", "rep":
